@@ -449,6 +449,9 @@ func specAllPdrsRef(s *PFCPSession, v uint32) bool {
 }
 
 //@ func (s *PFCPSession) MarkSessionQer(qers []qer)
+//@   ensures C03.mark.frame: forall r int :: r != sliceRef(qers) ==> arrSame[qer](r)
+//@   ensures C03.mark.pdrframe: forall r int :: r != sliceRef(s.pdrs) ==> arrSame[pdr](r)
+//@   ensures C03.mark.session: same(*s, old[PFCPSession](*s))
 //@   requires s != nil
 //@   ensures C09.mark.sound: forall k int :: lo(qers) <= k && k < hi(qers) && at(qers, k).qosLevel == SessionQos && old[QosLevel](at(qers, k).qosLevel) != SessionQos ==> old[bool](specAllPdrsRef(s, at(qers, k).qerID))
 //@   ensures C09.mark.atMostOne: forall k1 int, k2 int :: lo(qers) <= k1 && k1 < k2 && k2 < hi(qers) ==> at(qers, k1).qosLevel == old[QosLevel](at(qers, k1).qosLevel) || at(qers, k2).qosLevel == old[QosLevel](at(qers, k2).qosLevel)
@@ -456,6 +459,7 @@ func specAllPdrsRef(s *PFCPSession, v uint32) bool {
 //@   loop 1 freshwrites E:uint32
 //@   loop 1 invariant C09.mark.l1.idx: rangeidx+1 <= len(s.pdrs) && !allocated(sessQerIDList)
 //@   loop 1 invariant C09.mark.l1.common: forall x int, j int :: lo(sessQerIDList) <= x && x < hi(sessQerIDList) && lo(s.pdrs) <= j && j < lo(s.pdrs)+rangeidx+1 ==> specContains(at(s.pdrs, j).qerIDList, at(sessQerIDList, x))
+//@   loop 3 invariant C03.mark.l3.frame: same(s.pdrs, old[[]pdr](s.pdrs)) && (forall r int :: r != sliceRef(s.pdrs) ==> arrSame[pdr](r))
 //@   loop 2 invariant C09.mark.l2.idx: rangeidx+1 <= len(qers) && 0 <= sessionIdx
 //@   loop 2 invariant C09.mark.l2.pick: found ==> sessionIdx < len(qers) && specContains(sessQerIDList, at(qers, lo(qers)+sessionIdx).qerID) && sessQerID == at(qers, lo(qers)+sessionIdx).qerID
 
@@ -767,6 +771,9 @@ func specFirstFar(s *PFCPSession, j int, id uint32) bool {
 }
 
 //@ func (s *PFCPSession) UpdateFAR(f *far, endMarkerList *[][]byte) (err error)
+//@   ensures C03.updfar.others: forall r int :: r != refOf(s) ==> same(*ptrAt[PFCPSession](r), old[PFCPSession](*ptrAt[PFCPSession](r)))
+//@   ensures C03.updfar.frame: forall r int :: r != old[int](sliceRef(s.fars)) ==> arrSame[far](r)
+//@   ensures C03.updfar.shape: same(s.fars, old[[]far](s.fars)) && same(s.pdrs, old[[]pdr](s.pdrs)) && same(s.qers, old[[]qer](s.qers))
 //@   requires s != nil && f != nil && endMarkerList != nil
 //@   logical j int
 //@   freshwrites E:uint8
@@ -1309,6 +1316,9 @@ func gsTagged[T any](fam string, obj int) bool { panic("ghost builtin") }
 func onceDone(o *sync.Once) bool { panic("ghost builtin") }
 
 func chanClosed[T any](c chan T) bool { panic("ghost builtin") }
+
+// arrSame: the array with this identity (element type T) holds what it held in the old state.
+func arrSame[T any](ref int) bool { panic("ghost builtin") }
 
 // same: component-wise equality, also for struct types that Go cannot compare (slice fields).
 func same[T any](a, b T) bool { panic("ghost builtin") }
@@ -2032,8 +2042,11 @@ func specNoPdr(s *PFCPSession, id uint32) bool {
 }
 
 //@ func (s *PFCPSession) RemovePDR(id uint32) (r *pdr, err error)
+//@   ensures C03.rmpdr.others: forall r int :: r != refOf(s) ==> same(*ptrAt[PFCPSession](r), old[PFCPSession](*ptrAt[PFCPSession](r)))
+//@   ensures C03.rmpdr.frame: forall r int :: r != old[int](sliceRef(s.pdrs)) ==> arrSame[pdr](r)
 //@   requires s != nil
 //@   logical j int
+//@   ensures C03.rmpdr.array: sameArray(s.pdrs, old[[]pdr](s.pdrs)) && lo(s.pdrs) == old[int](lo(s.pdrs)) && len(s.pdrs) <= old[int](len(s.pdrs))
 //@   ensures C03.rmpdr.result: (err == nil) <==> (r != nil)
 //@   ensures C03.rmpdr.found: old[bool](specFirstPdrAt(s, j, id)) ==> err == nil && !allocated(r) && same(*r, old[pdr](at(s.pdrs, j))) && len(s.pdrs) == old[int](len(s.pdrs))-1 && sameArray(s.pdrs, old[[]pdr](s.pdrs)) && lo(s.pdrs) == old[int](lo(s.pdrs))
 //@   ensures C03.rmpdr.before: old[bool](specFirstPdrAt(s, j, id)) ==> forall i int :: lo(s.pdrs) <= i && i < j ==> same(at(s.pdrs, i), old[pdr](at(s.pdrs, i)))
@@ -2042,6 +2055,8 @@ func specNoPdr(s *PFCPSession, id uint32) bool {
 //@   loop 1 invariant C03.rmpdr.l1: rangeidx+1 <= len(s.pdrs) && (forall i int :: lo(s.pdrs) <= i && i < lo(s.pdrs)+rangeidx+1 ==> at(s.pdrs, i).pdrID != id) && same(s.pdrs, old[[]pdr](s.pdrs)) && (forall i int :: lo(s.pdrs) <= i && i < hi(s.pdrs) ==> same(at(s.pdrs, i), old[pdr](at(s.pdrs, i))))
 
 //@ func (s *PFCPSession) UpdatePDR(p pdr) (err error)
+//@   ensures C03.updpdr.others: forall r int :: r != refOf(s) ==> same(*ptrAt[PFCPSession](r), old[PFCPSession](*ptrAt[PFCPSession](r)))
+//@   ensures C03.updpdr.frame: forall r int :: r != old[int](sliceRef(s.pdrs)) ==> arrSame[pdr](r)
 //@   requires s != nil
 //@   logical j int
 //@   ensures C03.updpdr.found: old[bool](specFirstPdrAt(s, j, p.pdrID)) ==> err == nil && same(at(s.pdrs, j), p) && (forall i int :: lo(s.pdrs) <= i && i < hi(s.pdrs) && i != j ==> same(at(s.pdrs, i), old[pdr](at(s.pdrs, i))))
@@ -2054,7 +2069,7 @@ func specNoPdr(s *PFCPSession, id uint32) bool {
 //@   ensures C03.crpdr: len(s.pdrs) == old[int](len(s.pdrs))+1 && same(at(s.pdrs, hi(s.pdrs)-1), p) && (forall i int :: 0 <= i && i < old[int](len(s.pdrs)) ==> same(at(s.pdrs, lo(s.pdrs)+i), old[pdr](at(s.pdrs, lo(s.pdrs)+i))))
 //@   ensures C03.crpdr.others: forall r int :: r != refOf(s) ==> same(*ptrAt[PFCPSession](r), old[PFCPSession](*ptrAt[PFCPSession](r)))
 //@   ensures C03.crpdr.array: sameArray(s.pdrs, old[[]pdr](s.pdrs)) || !allocated(s.pdrs)
-//@   ensures C03.crpdr.frame: forall r int, a int :: r != old[int](sliceRef(s.pdrs)) && old[bool](live(r)) ==> same(elemAt[pdr](r, a), old[pdr](elemAt[pdr](r, a)))
+//@   ensures C03.crpdr.frame: forall r int :: r != old[int](sliceRef(s.pdrs)) && old[bool](live(r)) ==> arrSame[pdr](r)
 
 func specFirstFarAt(s *PFCPSession, j int, id uint32) bool {
 	return lo(s.fars) <= j && j < hi(s.fars) && at(s.fars, j).farID == id &&
@@ -2066,8 +2081,11 @@ func specNoFar(s *PFCPSession, id uint32) bool {
 }
 
 //@ func (s *PFCPSession) RemoveFAR(id uint32) (r *far, err error)
+//@   ensures C03.rmfar.others: forall r int :: r != refOf(s) ==> same(*ptrAt[PFCPSession](r), old[PFCPSession](*ptrAt[PFCPSession](r)))
+//@   ensures C03.rmfar.frame: forall r int :: r != old[int](sliceRef(s.fars)) ==> arrSame[far](r)
 //@   requires s != nil
 //@   logical j int
+//@   ensures C03.rmfar.array: sameArray(s.fars, old[[]far](s.fars)) && lo(s.fars) == old[int](lo(s.fars)) && len(s.fars) <= old[int](len(s.fars))
 //@   ensures C03.rmfar.result: (err == nil) <==> (r != nil)
 //@   ensures C03.rmfar.found: old[bool](specFirstFarAt(s, j, id)) ==> err == nil && !allocated(r) && same(*r, old[far](at(s.fars, j))) && len(s.fars) == old[int](len(s.fars))-1 && sameArray(s.fars, old[[]far](s.fars)) && lo(s.fars) == old[int](lo(s.fars))
 //@   ensures C03.rmfar.before: old[bool](specFirstFarAt(s, j, id)) ==> forall i int :: lo(s.fars) <= i && i < j ==> same(at(s.fars, i), old[far](at(s.fars, i)))
@@ -2080,7 +2098,7 @@ func specNoFar(s *PFCPSession, id uint32) bool {
 //@   ensures C03.crfar: len(s.fars) == old[int](len(s.fars))+1 && same(at(s.fars, hi(s.fars)-1), f) && (forall i int :: 0 <= i && i < old[int](len(s.fars)) ==> same(at(s.fars, lo(s.fars)+i), old[far](at(s.fars, lo(s.fars)+i))))
 //@   ensures C03.crfar.others: forall r int :: r != refOf(s) ==> same(*ptrAt[PFCPSession](r), old[PFCPSession](*ptrAt[PFCPSession](r)))
 //@   ensures C03.crfar.array: sameArray(s.fars, old[[]far](s.fars)) || !allocated(s.fars)
-//@   ensures C03.crfar.frame: forall r int, a int :: r != old[int](sliceRef(s.fars)) && old[bool](live(r)) ==> same(elemAt[far](r, a), old[far](elemAt[far](r, a)))
+//@   ensures C03.crfar.frame: forall r int :: r != old[int](sliceRef(s.fars)) && old[bool](live(r)) ==> arrSame[far](r)
 
 func specFirstQerAt(s *PFCPSession, j int, id uint32) bool {
 	return lo(s.qers) <= j && j < hi(s.qers) && at(s.qers, j).qerID == id &&
@@ -2092,8 +2110,11 @@ func specNoQer(s *PFCPSession, id uint32) bool {
 }
 
 //@ func (s *PFCPSession) RemoveQER(id uint32) (r *qer, err error)
+//@   ensures C03.rmqer.others: forall r int :: r != refOf(s) ==> same(*ptrAt[PFCPSession](r), old[PFCPSession](*ptrAt[PFCPSession](r)))
+//@   ensures C03.rmqer.frame: forall r int :: r != old[int](sliceRef(s.qers)) ==> arrSame[qer](r)
 //@   requires s != nil
 //@   logical j int
+//@   ensures C03.rmqer.array: sameArray(s.qers, old[[]qer](s.qers)) && lo(s.qers) == old[int](lo(s.qers)) && len(s.qers) <= old[int](len(s.qers))
 //@   ensures C03.rmqer.result: (err == nil) <==> (r != nil)
 //@   ensures C03.rmqer.found: old[bool](specFirstQerAt(s, j, id)) ==> err == nil && !allocated(r) && same(*r, old[qer](at(s.qers, j))) && len(s.qers) == old[int](len(s.qers))-1 && sameArray(s.qers, old[[]qer](s.qers)) && lo(s.qers) == old[int](lo(s.qers))
 //@   ensures C03.rmqer.before: old[bool](specFirstQerAt(s, j, id)) ==> forall i int :: lo(s.qers) <= i && i < j ==> same(at(s.qers, i), old[qer](at(s.qers, i)))
@@ -2102,6 +2123,8 @@ func specNoQer(s *PFCPSession, id uint32) bool {
 //@   loop 1 invariant C03.rmqer.l1: rangeidx+1 <= len(s.qers) && (forall i int :: lo(s.qers) <= i && i < lo(s.qers)+rangeidx+1 ==> at(s.qers, i).qerID != id) && same(s.qers, old[[]qer](s.qers)) && (forall i int :: lo(s.qers) <= i && i < hi(s.qers) ==> same(at(s.qers, i), old[qer](at(s.qers, i))))
 
 //@ func (s *PFCPSession) UpdateQER(q qer) (err error)
+//@   ensures C03.updqer.others: forall r int :: r != refOf(s) ==> same(*ptrAt[PFCPSession](r), old[PFCPSession](*ptrAt[PFCPSession](r)))
+//@   ensures C03.updqer.frame: forall r int :: r != old[int](sliceRef(s.qers)) ==> arrSame[qer](r)
 //@   requires s != nil
 //@   logical j int
 //@   ensures C03.updqer.found: old[bool](specFirstQerAt(s, j, q.qerID)) ==> err == nil && same(at(s.qers, j), q) && (forall i int :: lo(s.qers) <= i && i < hi(s.qers) && i != j ==> same(at(s.qers, i), old[qer](at(s.qers, i))))
@@ -2114,7 +2137,7 @@ func specNoQer(s *PFCPSession, id uint32) bool {
 //@   ensures C03.crqer: len(s.qers) == old[int](len(s.qers))+1 && same(at(s.qers, hi(s.qers)-1), q) && (forall i int :: 0 <= i && i < old[int](len(s.qers)) ==> same(at(s.qers, lo(s.qers)+i), old[qer](at(s.qers, lo(s.qers)+i))))
 //@   ensures C03.crqer.others: forall r int :: r != refOf(s) ==> same(*ptrAt[PFCPSession](r), old[PFCPSession](*ptrAt[PFCPSession](r)))
 //@   ensures C03.crqer.array: sameArray(s.qers, old[[]qer](s.qers)) || !allocated(s.qers)
-//@   ensures C03.crqer.frame: forall r int, a int :: r != old[int](sliceRef(s.qers)) && old[bool](live(r)) ==> same(elemAt[qer](r, a), old[qer](elemAt[qer](r, a)))
+//@   ensures C03.crqer.frame: forall r int :: r != old[int](sliceRef(s.qers)) && old[bool](live(r)) ==> arrSame[qer](r)
 
 // ---------------------------------------------------------------------------
 // C03: BESS encoders - what is written for a rule, and that delete names what add installed
@@ -2407,6 +2430,7 @@ func specValidMethod(m upfMsgType) bool {
 //@   trusted
 //@   modifies elem pdr.ctrID
 //@   appends dp
+//@   ensures C03.dp.frame: forall r int :: r != sliceRef(all.pdrs) ==> arrSame[pdr](r)
 //@   ensures gfield("dp.method", gentry("dp", glen("dp")-1)) == uint64(method) && gfield("dp.pdrs", gentry("dp", glen("dp")-1)) == uint64(sliceRef(all.pdrs)) && gfield("dp.npdrs", gentry("dp", glen("dp")-1)) == uint64(len(all.pdrs)) && gfield("dp.fars", gentry("dp", glen("dp")-1)) == uint64(sliceRef(all.fars)) && gfield("dp.nfars", gentry("dp", glen("dp")-1)) == uint64(len(all.fars)) && gfield("dp.qers", gentry("dp", glen("dp")-1)) == uint64(sliceRef(all.qers)) && gfield("dp.nqers", gentry("dp", glen("dp")-1)) == uint64(len(all.qers))
 
 // Ghost log "gauge": one entry per SaveSessions call (the session's metrics object).
@@ -2658,3 +2682,78 @@ func specPoolArg(ippool *IPPool) bool {
 //@   freshwrites ie.IE, E:uint8
 //@   ensures C02.pdrinfo.keep: msg.Header == old[*message.Header](msg.Header) && msg.Cause == old[*ie.IE](msg.Cause) && msg.NodeID == old[*ie.IE](msg.NodeID) && msg.UPFSEID == old[*ie.IE](msg.UPFSEID)
 //@   loop 1 invariant C02.pdrinfo.l1: msg.Header == old[*message.Header](msg.Header) && msg.Cause == old[*ie.IE](msg.Cause) && msg.NodeID == old[*ie.IE](msg.NodeID) && msg.UPFSEID == old[*ie.IE](msg.UPFSEID)
+
+// ---------------------------------------------------------------------------
+// C01 / C02 / C03: session modification
+// ---------------------------------------------------------------------------
+
+func specModReq(msg message.Message) *message.SessionModificationRequest {
+	return ptrAt[message.SessionModificationRequest](dynRef(msg))
+}
+
+func specModResp(reply message.Message) *message.SessionModificationResponse {
+	return ptrAt[message.SessionModificationResponse](dynRef(reply))
+}
+
+func specNoNilIE(l []*ie.IE) bool {
+	return forall(func(a int) bool { return implies(lo(l) <= a && a < hi(l), at(l, a) != nil) })
+}
+
+func specModReqWF(msg message.Message) bool {
+	return implies(typeIs[*message.SessionModificationRequest](msg),
+		specNoNilIE(specModReq(msg).CreatePDR) && specNoNilIE(specModReq(msg).CreateFAR) && specNoNilIE(specModReq(msg).CreateQER) &&
+			specNoNilIE(specModReq(msg).UpdatePDR) && specNoNilIE(specModReq(msg).UpdateFAR) && specNoNilIE(specModReq(msg).UpdateQER) &&
+			specNoNilIE(specModReq(msg).RemovePDR) && specNoNilIE(specModReq(msg).RemoveFAR) && specNoNilIE(specModReq(msg).RemoveQER))
+}
+
+// specOldRulesUntouched (C03/C05): no rule array that existed when the handler was entered has
+// changed - in particular none of a stored session.
+func specOldRulesUntouched() bool {
+	return forall(func(r int) bool {
+		return implies(old(func() bool { return live(r) }), arrSame[pdr](r) && arrSame[far](r) && arrSame[qer](r))
+	})
+}
+
+func specStoreSame(pConn *PFCPConn) bool {
+	return forall(func(k uint64) bool {
+		return (specHasSession(pConn, k) == old(func() bool { return specHasSession(pConn, k) })) &&
+			implies(specHasSession(pConn, k), same(specSession(pConn, k), old(func() PFCPSession { return specSession(pConn, k) })))
+	})
+}
+
+//@ func (d datapath) SendEndMarkers(endMarkerList *[][]byte) (err error)
+//@   trusted
+//@   pure
+
+// sendError (the closure of handleSessionModificationRequest): a rejection that answers the request.
+//@ func (pConn *PFCPConn) handleSessionModificationRequest#1(err error) (m message.Message, e error) free(remoteSEID uint64, smreq *message.SessionModificationRequest)
+//@   requires smreq != nil && smreq.Header != nil
+//@   freshwrites message.SessionModificationResponse, message.Header, ie.IE
+//@   ensures C02.mod.senderror: e == err && typeIs[*message.SessionModificationResponse](m) && dynRef(m) != 0 && !allocated(m) && specModResp(m).Header != nil && specModResp(m).Header.SequenceNumber == smreq.Header.SequenceNumber && specModResp(m).Header.SEID == remoteSEID && specModResp(m).Cause != nil && specIEu8(specModResp(m).Cause) == ie.CauseRequestRejected
+
+//@ func (pConn *PFCPConn) handleSessionModificationRequest(msg message.Message) (reply message.Message, err error)
+//@   requires specHandlerEnv(pConn) && msgWF(msg) && specModReqWF(msg)
+//@   ensures C02.mod.wrongtype: !typeIs[*message.SessionModificationRequest](msg) ==> reply == nil && err != nil
+//@   ensures C02.mod.reply: typeIs[*message.SessionModificationRequest](msg) ==> typeIs[*message.SessionModificationResponse](reply) && dynRef(reply) != 0 && specModResp(reply).Header != nil && specModResp(reply).Header.SequenceNumber == specModReq(msg).Header.SequenceNumber && specModResp(reply).Cause != nil
+//@   ensures C02.mod.cause: typeIs[*message.SessionModificationRequest](msg) ==> (err != nil ==> specIEu8(specModResp(reply).Cause) == ie.CauseRequestRejected) && (err == nil ==> specIEu8(specModResp(reply).Cause) == ie.CauseRequestAccepted)
+//@   ensures C03.mod.rejected: err != nil ==> specOldRulesUntouched() && specStoreSame(pConn)
+//@   ensures C03.mod.unknown: typeIs[*message.SessionModificationRequest](msg) && !old[bool](specHasSession(pConn, specMsgSEID(msg))) ==> err != nil && specModResp(reply).Header.SEID == 0 && glen("dp") == old[int](glen("dp"))
+//@   ensures C03.mod.calls: glen("dp") <= old[int](glen("dp"))+2 && (err == nil ==> glen("dp") == old[int](glen("dp"))+2 && gfield("dp.method", gentry("dp", old[int](glen("dp")))) == uint64(upfMsgTypeMod) && gfield("dp.method", gentry("dp", old[int](glen("dp"))+1)) == uint64(upfMsgTypeDel))
+//@   loop 1 invariant C03.mod.l1.private: !allocated(session.pdrs) && !allocated(session.fars) && !allocated(session.qers) && !allocated(addPDRs) && !allocated(addFARs) && !allocated(addQERs) && specOldRulesUntouched() && specStoreSame(pConn)
+//@   loop 1 invariant C01.mod.l1: connInv(pConn) && specPoolReady(pConn) && pfdInv(pConn.appPFDs) && glen("dp") == old[int](glen("dp"))
+//@   loop 2 invariant C03.mod.l2.private: !allocated(session.pdrs) && !allocated(session.fars) && !allocated(session.qers) && !allocated(addPDRs) && !allocated(addFARs) && !allocated(addQERs) && specOldRulesUntouched() && specStoreSame(pConn)
+//@   loop 2 invariant C01.mod.l2: connInv(pConn) && specPoolReady(pConn) && pfdInv(pConn.appPFDs) && glen("dp") == old[int](glen("dp"))
+//@   loop 3 invariant C03.mod.l3.private: !allocated(session.pdrs) && !allocated(session.fars) && !allocated(session.qers) && !allocated(addPDRs) && !allocated(addFARs) && !allocated(addQERs) && specOldRulesUntouched() && specStoreSame(pConn)
+//@   loop 3 invariant C01.mod.l3: connInv(pConn) && specPoolReady(pConn) && pfdInv(pConn.appPFDs) && glen("dp") == old[int](glen("dp"))
+//@   loop 4 invariant C03.mod.l4.private: !allocated(session.pdrs) && !allocated(session.fars) && !allocated(session.qers) && !allocated(addPDRs) && !allocated(addFARs) && !allocated(addQERs) && specOldRulesUntouched() && specStoreSame(pConn)
+//@   loop 4 invariant C01.mod.l4: connInv(pConn) && specPoolReady(pConn) && pfdInv(pConn.appPFDs) && glen("dp") == old[int](glen("dp"))
+//@   loop 5 invariant C03.mod.l5.private: !allocated(session.pdrs) && !allocated(session.fars) && !allocated(session.qers) && !allocated(addPDRs) && !allocated(addFARs) && !allocated(addQERs) && specOldRulesUntouched() && specStoreSame(pConn)
+//@   loop 5 invariant C01.mod.l5: connInv(pConn) && specPoolReady(pConn) && pfdInv(pConn.appPFDs) && glen("dp") == old[int](glen("dp"))
+//@   loop 6 invariant C03.mod.l6.private: !allocated(session.pdrs) && !allocated(session.fars) && !allocated(session.qers) && !allocated(addPDRs) && !allocated(addFARs) && !allocated(addQERs) && specOldRulesUntouched() && specStoreSame(pConn)
+//@   loop 6 invariant C01.mod.l6: connInv(pConn) && specPoolReady(pConn) && pfdInv(pConn.appPFDs) && glen("dp") == old[int](glen("dp"))
+//@   loop 7 invariant C03.mod.l7.private: !allocated(session.pdrs) && !allocated(session.fars) && !allocated(session.qers) && !allocated(addPDRs) && !allocated(addFARs) && !allocated(addQERs) && !allocated(delPDRs) && !allocated(delFARs) && !allocated(delQERs) && specOldRulesUntouched() && specStoreSame(pConn)
+//@   loop 7 invariant C01.mod.l7: connInv(pConn) && specPoolReady(pConn) && pfdInv(pConn.appPFDs) && glen("dp") == old[int](glen("dp"))+1
+//@   loop 8 invariant C03.mod.l8.private: !allocated(session.pdrs) && !allocated(session.fars) && !allocated(session.qers) && !allocated(addPDRs) && !allocated(addFARs) && !allocated(addQERs) && !allocated(delPDRs) && !allocated(delFARs) && !allocated(delQERs) && specOldRulesUntouched() && specStoreSame(pConn)
+//@   loop 8 invariant C01.mod.l8: connInv(pConn) && specPoolReady(pConn) && pfdInv(pConn.appPFDs) && glen("dp") == old[int](glen("dp"))+1
+//@   loop 9 invariant C03.mod.l9.private: !allocated(session.pdrs) && !allocated(session.fars) && !allocated(session.qers) && !allocated(addPDRs) && !allocated(addFARs) && !allocated(addQERs) && !allocated(delPDRs) && !allocated(delFARs) && !allocated(delQERs) && specOldRulesUntouched() && specStoreSame(pConn)
+//@   loop 9 invariant C01.mod.l9: connInv(pConn) && specPoolReady(pConn) && pfdInv(pConn.appPFDs) && glen("dp") == old[int](glen("dp"))+1
